@@ -16,3 +16,13 @@ Lemma no_ambient_input_C19 : ambient_input_sites_C19 = [].
 Proof. reflexivity. Qed.
 Lemma sources_were_scanned_C19 : source_files_scanned_C19 <> 0.
 Proof. discriminate. Qed.
+
+(* The types this property reaches get Clone / Copy / PartialEq / Eq / Hash / Ord / PartialOrd by `derive` only
+   (field-wise semantics, which is what the models assume: e.g. comparing a NormalizedString compares
+   (array, length), cloning a cipher half copies every field) and none of them, nor Drop, is written by hand.
+   The list is re-read from the source on every run; a hand-written `impl Clone` (whose `clone_from` may leave
+   stale bytes behind), a hand-written comparison, or a derive removed from a type shows here. *)
+Local Open Scope string_scope.
+Lemma structural_traits_pinned_C19 : structural_traits_C19 =
+  [].
+Proof. reflexivity. Qed.
